@@ -320,7 +320,7 @@ fn c10_case_sized(rng: &mut Rng, st: &mut Stats, big: bool) -> CaseOutcome {
                     // a third of the resets go through the consuming with_offset on the used
                     // iterator (the index of the reset in the history decides, so that replays of
                     // the executed list take the same path)
-                    if (executed.len() + *o) % 3 == 0 {
+                    if executed.len().wrapping_add(*o) % 3 == 0 {
                         it = it.with_offset(*o);
                         last_peek = None;
                         st.count("reset_through_with_offset_mid_history");
